@@ -22,3 +22,15 @@ package gen
 //@   ensures [C02 exact] len(n.BigBuf) == 0 ==> n.I == old(n.I)*10 + (b - '0') && n.I <= MaxInt64
 //@   ensures [C02 nolose] old(len(n.BigBuf)) > 0 ==> len(n.BigBuf) == old(len(n.BigBuf)) + 1
 //@   ensures [C02 int] old(len(n.BigBuf)) == 0 && old(n.I)*10 + (b - '0') <= MaxInt64 ==> len(n.BigBuf) == 0
+
+//@ func (*Number).AddFrac
+//@   requires '0' <= b && b <= '9'
+//@   modifies n.Frac, n.Div, n.BigBuf, heap(n.BigBuf)
+//@   ensures [C02 exact] len(n.BigBuf) == 0 ==> n.Frac == old(n.Frac)*10 + (b - '0') && n.Div == old(n.Div)*10 && n.Frac <= MaxInt64
+//@   ensures [C02 nolose] old(len(n.BigBuf)) > 0 ==> len(n.BigBuf) == old(len(n.BigBuf)) + 1
+
+//@ func (*Number).AddExp
+//@   requires '0' <= b && b <= '9'
+//@   modifies n.Exp, n.BigBuf, heap(n.BigBuf)
+//@   ensures [C02 exact] len(n.BigBuf) == 0 ==> n.Exp == old(n.Exp)*10 + (b - '0') && n.Exp <= 1022
+//@   ensures [C02 nolose] old(len(n.BigBuf)) > 0 ==> len(n.BigBuf) == old(len(n.BigBuf)) + 1
